@@ -42,6 +42,7 @@ fn c04_dfs(ctx: &Ctx, l: &mut Local, root: &Pos, p: &Pos, b: &mut Board, depth: 
         b.toggle_turn();
         let r = em.undo(b);
         l.inc("driver_apply_undo_pairs"); l.inc_dyn(&format!("undone_{}", kind_of(&m)));
+        if m.kind != Kind::Quiet || p.make(&m).rights != p.rights { l.distinct.push(p.key_hash() ^ ((m.from as u64) << 8 | m.to as u64).wrapping_mul(0x9E37_79B9_7F4A_7C15)); }
         let after = Snapshot::take(b);
         if r.is_err() || after != snap {
             let d = snap.diff(&after).unwrap_or_else(|| format!("undo returned {:?}", r));
@@ -175,7 +176,7 @@ pub fn c04(o: &Opts) -> i32 {
     ctx.sample(json!({"kind": "long sequence", "what": "seeded game of 100-400 plies, positions registered in the repetition bookkeeping before ~30% of the moves, snapshot after every ply, then unwound completely with a full snapshot comparison at every level"}));
     ctx.sample(json!({"kind": "hook-level", "what": "every ChessMove::apply/undo pair executed inside legality filtering, annotation, search and counting is matched on a per-(thread, board) shadow stack and the digest after undo must equal the digest before apply"}));
     ctx.finish(ctx.counter("driver_apply_undo_pairs") + ctx.counter("hook_undo_pairs") + ctx.counter("engine_calls_guarded"),
-        "driver level: exhaustive walks (depth 2-3 from every corpus position) compare the full snapshot (64 squares, 12 piece boards, occupancies, turn, rights, ep, both clocks, key, repetition count, and via hook all stacks and the repetition map) at every unwinding level; seeded games of 100-400 plies are unwound completely; engine entry points (generation, annotated generation, check/mate queries, game_ending, score, SAN enumeration, count_positions, alpha_beta_search) are wrapped in before/after snapshots; hook level: shadow-stack monitor on every apply/undo pair inside the engine. distinct_nontrivial = distinct long sequences unwound",
+        "driver level: exhaustive walks (depth 2-3 from every corpus position) compare the full snapshot (64 squares, 12 piece boards, occupancies, turn, rights, ep, both clocks, key, repetition count, and via hook all stacks and the repetition map) at every unwinding level; seeded games of 100-400 plies are unwound completely; engine entry points (generation, annotated generation, check/mate queries, game_ending, score, SAN enumeration, count_positions, alpha_beta_search) are wrapped in before/after snapshots; hook level: shadow-stack monitor on every apply/undo pair inside the engine. distinct_nontrivial = distinct (position, non-quiet or rights-changing move) pairs undone in the exhaustive walks + distinct long sequences unwound",
         &["zero-count entries of the repetition map are ignored ('registered then unregistered' == 'never registered')", "the side to move is excluded from the hook-level digest because callers legitimately toggle it between apply and undo; it is part of the driver-level snapshots"],
         &[("hook_undo_pairs", 100_000), ("undone_en_passant", 5), ("undone_castle", 20), ("undone_promotion", 20), ("undone_promotion_capture", 10), ("long_sequences_unwound", 20), ("engine_calls_guarded", 500), ("guarded_alpha_beta_search", 5), ("highest_half_move_clock_unwound", 110)])
 }
@@ -200,6 +201,7 @@ fn c12_dfs(ctx: &Ctx, l: &mut Local, root: &Pos, p: &Pos, b: &mut Board, depth: 
         if m.kind == Kind::DoublePush { l.inc("ep_target_set_transitions"); }
         let n = p.make(&m);
         if n.rights != p.rights { l.inc("rights_loss_transitions"); }
+        if n.rights != p.rights || m.kind != Kind::Quiet { l.distinct.push(n.key_hash()); }
         b.toggle_turn();
         c12_dfs(ctx, l, root, &n, b, depth - 1, path);
         b.toggle_turn();
